@@ -19,7 +19,7 @@ def graph_from_presence(dn, directed, presence, ids=None):
 
 
 INT_STYLES = ("plain", "plain", "plain", "suffix", "negative")
-STR_STYLES = ("plain", "plain", "suffix", "digits")
+STR_STYLES = ("plain", "plain", "suffix", "digits", "hash", "odd")
 
 
 def node_ids(rng, n, strings):
@@ -29,7 +29,11 @@ def node_ids(rng, n, strings):
     if strings:
         pool = {"plain": ["n%d" % i for i in range(n)],
                 "suffix": ["a", "ba", "ca", "b", "ab", "cab", "c", "bc", "abc", "d"][:n],
-                "digits": ["1", "30", "-3", "7", "07", "11", "2", "21", "100", "5"][:n]}[style]
+                "digits": ["1", "30", "-3", "7", "07", "11", "2", "21", "100", "5"][:n],
+                # '#' inside an id, with the text before it being another node
+                "hash": ["doc", "doc#2", "a#b", "a", "b", "#", "x#", "c", "doc#", "d"][:n],
+                # legal '_'-free strings with line feeds, blanks, tabs
+                "odd": ["first\nsecond", "second", "x\n", "", " a", "a", "tab\tid", "b", "c", "d"][:n]}[style]
     else:
         pool = {"plain": list(range(n)),
                 "suffix": [1, 11, 21, 2, 12, 22, 3, 13, 111, 4][:n],
@@ -39,7 +43,7 @@ def node_ids(rng, n, strings):
 
 def time_base(rng):
     """0 mostly; ids crossing a digit-count boundary (9->10, 99->100); nanosecond epochs beyond 2**53"""
-    return rng.choice((0, 0, 0, 0, 7, 96, 2 ** 60))
+    return rng.choice((0, 0, 0, 0, 7, 96, 2 ** 60, 2 ** 63 - 2))
 
 
 def random_temporal_graph(rng, dn, strings=False, max_nodes=5, max_ids=6, p_loop=0.05, gaps=True):
